@@ -329,17 +329,17 @@ func c46One(r *rng, id int, forceKind int) c46Case {
 			stream = append(stream, r.bytes(r.intn(3))...)
 		case 3: // empty record
 			stream = append(stream, 0, 0, 0, 0)
-		default: // low bytes of a size field changed
+		default:
+			// a size field announcing more than the rest of the stream (+65536*x). Sizes are
+			// never made smaller: after lost framing Restore takes body bytes for a size
+			// field and allocates up to 4 GiB per record, which only slows the check down.
 			if len(bodies) > 0 {
 				k := r.intn(len(bodies))
 				off := 4
 				for i := 0; i < k; i++ {
 					off += 4 + len(bodies[i])
 				}
-				stream[off] ^= byte(1 + r.intn(255))
-				if r.coin(1, 3) {
-					stream[off+1] ^= byte(1 + r.intn(3))
-				}
+				stream[off+2] = byte(1 + r.intn(40))
 			} else {
 				stream = append(stream, 5, 0, 0, 0, 1, 2)
 			}
